@@ -26,7 +26,8 @@ the syntax layer. This module closes the four parts their docstring lists as "no
 
 Result: `accepts_iff_grammar_entry_partial` (and `accepts_iff_grammar_decimal_partial` with `NumberExact` as the one named
 hypothesis) — the statement of `accepts_iff_grammar`, verbatim, for `f32`/`f64`, under the
-explicit side conditions listed there. `accepts_iff_grammar` itself stays a `def`: it is FALSE on the finding classes
+explicit side conditions listed there; `accepts_iff_grammar_of_numberExact` reduces the whole proved class to the single
+open statement `NumberExactC12 : Prop`. `accepts_iff_grammar` itself stays a `def`: it is FALSE on the finding classes
 (`accepts_iff_grammar_refuted_by_prefix`).
 -/
 namespace LexVerif.Props.C12
@@ -260,6 +261,35 @@ theorem accepts_iff_grammar_entry_partial (feats : Features) (f : Format) (o : P
     rw [hp1]
     exact ⟨hg, renderErr_startsWith k i⟩
 
+/-- **What is left of C12 on the proved class, as one statement**: `NumberExact` (`Props.C01Main`; there for decimal,
+separator/prefix-free formats) for every valid format without base prefix, every radix, separator formats included,
+complete parser, separator-free inputs below the length bound. Kept as a `def`: it is C01/C05 territory (the
+`mantissa`/`exponent` words of `parse_number`), not a statement about syntax. -/
+def NumberExactC12 : Prop :=
+  ∀ (feats : Features) (f : Format) (o : POpts) (s : List Nat) (n : Number) (cnt : Nat),
+    (formatError feats f).isNone = true → (optionsError o).isNone = true →
+    isValidOptionsPunctuation feats f o.exp o.dp = true → checkRadix feats f = true →
+    (∀ x ∈ s, x < 256) → separatorFree f s = true → FeatsOk feats → (feats.format = true → f.basePrefix = 0) →
+    1200 + 6 * s.length ≤ 0x10000000 →
+    parseFloatSyntax ⟨feats, f, false⟩ o false s true = .ok (.number n cnt) → n.manyDigits = false →
+    NumberExactAt ⟨feats, f, false⟩ n
+
+/-- `accepts_iff_grammar` on the whole proved class from `NumberExactC12` alone -/
+theorem accepts_iff_grammar_of_numberExact (hN : NumberExactC12) (feats : Features) (f : Format) (o : POpts) (F : FTy)
+    (s : List Nat) (hfe : (formatError feats f).isNone = true) (hoe : (optionsError o).isNone = true)
+    (hp : isValidOptionsPunctuation feats f o.exp o.dp = true) (hcr : checkRadix feats f = true)
+    (hb : ∀ x ∈ s, x < 256) (hn : separatorFree f s = true)
+    (hF : IsLemireFloat F) (hfeats : FeatsOk feats)
+    (hpre : feats.format = true → f.basePrefix = 0)
+    (hbody : (splitSign s).2 ≠ [] ∨
+      (Cfg.requiredIntegerDigits ⟨feats, f, false⟩ || Cfg.requiredMantissaDigits ⟨feats, f, false⟩) = true)
+    (hlen : 1200 + 6 * s.length ≤ 0x10000000) :
+    parseFloatModel feats f o false F.fmt s =
+        (grammarFloatComplete feats f o s).render F.fmt f.mantissaRadix f.exponentBase false
+      ∨ (grammarFloatComplete feats f o s = .err ∧ (parseFloatModel feats f o false F.fmt s).startsWith "err") :=
+  accepts_iff_grammar_entry_partial feats f o F s hfe hoe hp hcr hb hn hF hfeats hpre hbody hlen
+    (fun n cnt h hm => hN feats f o s n cnt hfe hoe hp hcr hb hn hfeats hpre hlen h hm)
+
 /-- **… with `NumberExact` as the one named hypothesis**: decimal formats (radix and exponent base 10) of the class
 `NumberExact` is stated for (`format` feature off, or no digit separator / base prefix). -/
 theorem accepts_iff_grammar_decimal_partial (hN : NumberExact) (feats : Features) (f : Format) (o : POpts) (F : FTy)
@@ -344,6 +374,26 @@ example : parseFloatModel {} Format.standard {} false FTy.f64.fmt [49, 46, 53, 1
   refine ⟨by decide, ⟨by decide, by decide⟩, ?_⟩
   unfold C01Main.RatEq
   decide
+
+/-- non-vacuity of `emptybody_rejects` and of the right disjunct of `hbody`: STANDARD requires mantissa digits; the bare
+sign `-` is rejected by the entry point (`err Empty 1`) and by the grammar — no exclusion needed -/
+example : (grammarFloatComplete {} Format.standard {} [45] = .err ∧
+      (parseFloatModel {} Format.standard {} false FTy.f64.fmt [45]).startsWith "err") := by
+  have h := accepts_iff_grammar_entry_partial {} Format.standard {} FTy.f64 [45] (by decide) (by decide)
+    (by decide) (by decide) (by decide) (by decide) (Or.inl rfl) (by intro h; cases h) (by intro h; cases h)
+    (Or.inr (by decide)) (by decide) (by
+      intro n cnt h _
+      have hm : parseFloatSyntax ⟨{}, Format.standard, false⟩ {} false [45] true = .error (.err "Empty" 1) := by decide
+      rw [hm] at h; cases h)
+  have hg : grammarFloatComplete {} Format.standard {} [45] = .err := by decide
+  rcases h with h | h
+  · rw [hg] at h
+    refine ⟨hg, ?_⟩
+    rw [entry_guards_pass {} Format.standard {} false FTy.f64.fmt [45] (by decide) (by decide) (by decide) (by decide)]
+    have hm : parseFloatSyntax ⟨{}, Format.standard, false⟩ {} false [45] true = .error (.err "Empty" 1) := by decide
+    rw [hm]
+    exact renderErr_startsWith _ _
+  · exact h
 
 /-- (c) a 21-digit input takes the many-digit re-parse and is accepted: `accepted_value` applies without `hx` -/
 example : (match parseFloatSyntax ⟨{}, Format.standard, false⟩ {} false
